@@ -35,7 +35,7 @@ ASSUMPTIONS = ['hex decoders take &str: bytes 0xc0, 0xc1, 0xf5..0xff cannot occu
 def nontrivial(line):
     toks = line.split()
     return any((t.startswith('x') and len(t) >= 5) or (not t.startswith('x') and len(t) >= 4 and not t.isdigit()) for t in toks[1:]) \
-        or any(k in toks[0] for k in ('hex', 'slice', 'serde_de'))
+        or any(k in toks[0] for k in ('hex', 'slice', 'serde_de', 'c16.err.', 'octal'))
 
 
 def xb(b):
@@ -402,6 +402,153 @@ def gen(tier, rng):
     # ------------------------------------------------------------------ crate-internal decode_hex_byte through the hooks
     # (emitted last from its own PRNG stream: the public lines above are the same as before the hooks existed)
     yield from hook_lines(tier, random.Random(rng.getrandbits(32)))
+
+    # ------------------------------------------------------------------ coverage round (after everything else: the lines above are unchanged)
+    yield from coverage_lines(tier, rng)
+
+
+# ---------------------------------------------------------------------- coverage round
+WRAP_KINDS = ['x', 'X', 'd', 'b', '#x', '#X', '#b']            # what NonZero<T> / Odd<T> forward (Debug is derived)
+CM = {1: 0xffffffff00000001, 2: (1 << 64) + 1,                # compile-time moduli of the harness (C16M1/2/4)
+      4: 0xffffffff00000000ffffffffffffffffbce6faada7179e84f3b9cac2fc632551}
+
+
+def frame(nb, body, ln=None):
+    return (nb if ln is None else ln).to_bytes(8, 'little') + body
+
+
+def bad_frames(rng, nb):
+    """malformed bincode frames of an `nb`-byte array (same shapes as the Uint serde framing errors)"""
+    body = rbytes(rng, nb)
+    return [frame(nb, body) + bytes([0]), frame(nb, body[:-1]), frame(nb, body[:-1], nb - 1), frame(nb, body + bytes([1]), nb + 1),
+            frame(nb, body)[:5], b'', frame(nb, body, 1 << 63), nb.to_bytes(8, 'big') + body, frame(nb, b''), frame(nb, body, 0)]
+
+
+def coverage_lines(tier, rng):
+    """serde of Limb / Wrapping / Checked / ConstMontyForm, word and limb views of Int, the mutable views of
+    Uint / Int / BoxedUint, From<Limb> for Word / WideWord, From<Odd<Uint>> for BoxedUint, the formatting traits
+    forwarded by NonZero / Odd (incl. Octal through a harness-local type), Display of the two error enums."""
+    quick = tier == 'quick'
+    widths = WIDTHS_Q if quick else WIDTHS_T
+    reps = 6 if quick else 120
+
+    # ---- Limb
+    ws = EDGE_WORDS + [0x0102030405060708, 0xf1e2d3c4b5a69788] + [limb_choice(rng) for _ in range(reps)]
+    for w in ws:
+        le = w.to_bytes(8, 'little')
+        yield f"c16.l.serde_ser {hx(w)}"
+        yield f"c16.l.serde_de {xb(le)}"
+        yield f"c16.l.serde_de {xb(le + bytes([rng.randrange(256)]))}"         # trailing byte: ignored
+        yield f"c16.l.serde_de {xb(le[:rng.randrange(8)])}"                    # too short
+        yield f"c16.l.to_prim {hx(w)}"
+        for k in rng.sample(WRAP_KINDS, 2):
+            yield f"c16.nz.l.fmt {k} {hx(w)}"
+    for k in range(9):
+        yield f"c16.l.serde_de {xb(bytes(range(0x11, 0x11 + k)))}"             # every length 0..8
+    for k in WRAP_KINDS:
+        yield f"c16.nz.l.fmt {k} {hx(0xabcdef0123456789)}"
+        yield f"c16.nz.l.fmt {k} 0"
+        yield f"c16.odd.l.fmt {k}"
+    for v in [0, 1, 7, 8, 9, 63, 64, 0o777, 0o1000, 1 << 62, 1 << 63, (1 << 63) - 1, WMAX, WMAX - 1] + [limb_choice(rng) for _ in range(reps)]:
+        yield f"c16.nz.octal o {hx(v)}"
+        yield f"c16.nz.octal #o {hx(v)}"
+    yield "c16.odd.octal o"
+    yield "c16.odd.octal #o"
+
+    # ---- fixed widths
+    for n in widths:
+        nb = 8 * n
+        m = 1 << (64 * n)
+        pat = int.from_bytes(bytes((i + 1) & 0xff for i in range(nb)), 'big') % m
+        vals = [0, 1, 2, m - 1, m - 2, m >> 1, (m >> 1) | 1, pat] + [value(rng, n) for _ in range(reps)]
+        for v in vals:
+            le = v.to_bytes(nb, 'little')
+            yield f"c16.w.serde_ser {n} {hx(v)}"
+            yield f"c16.w.serde_de {n} {xb(frame(nb, le))}"
+            yield f"c16.ck.serde_ser {n} 1 {hx(v)}"
+            yield f"c16.ck.serde_ser {n} 0 {hx(v)}"
+            yield f"c16.ck.serde_de {n} {xb(bytes([1]) + frame(nb, le))}"
+            yield f"c16.i.words {n} {hx(v)}"
+            yield f"c16.b.from_odd {n} {hx(v)}"
+            yield f"c16.b.from_odd {n} {hx(v | 1)}"
+            for k in rng.sample(WRAP_KINDS, 2):
+                yield f"c16.nz.fmt {n} {k} {hx(v)}"
+                yield f"c16.nz.i.fmt {n} {k} {hx(v)}"
+                yield f"c16.odd.fmt {n} {k} {hx(v | 1)}"
+                yield f"c16.odd.i.fmt {n} {k} {hx(v | 1)}"
+            i = rng.randrange(n)
+            w = limb_choice(rng)
+            yield f"c16.u.words_mut {n} {hx(v)} {i} {hx(w)}"
+            yield f"c16.i.words_mut {n} {hx(v)} {i} {hx(w)}"
+        # a store at every index (sampled above 8 limbs), into an all-distinct pattern / all-ones / zero
+        idx = range(n) if n <= 8 else sorted(set([0, 1, n // 2, n - 2, n - 1] + [rng.randrange(n) for _ in range(4)]))
+        for i in idx:
+            for (v, w) in ((pat, WMAX), (m - 1, 0), (0, 1 << 63)):
+                yield f"c16.u.words_mut {n} {hx(v)} {i} {hx(w)}"
+                yield f"c16.i.words_mut {n} {hx(v)} {i} {hx(w)}"
+        for k in WRAP_KINDS:
+            v = value(rng, n) | 1
+            yield f"c16.nz.fmt {n} {k} {hx(v)}"
+            yield f"c16.odd.fmt {n} {k} {hx(v)}"
+            yield f"c16.nz.i.fmt {n} {k} {hx(v)}"
+            yield f"c16.odd.i.fmt {n} {k} {hx(v)}"
+        yield f"c16.nz.fmt {n} x 0"                   # not admissible: no wrapper to format
+        yield f"c16.nz.i.fmt {n} x 0"
+        yield f"c16.odd.fmt {n} x {hx(m - 2)}"
+        yield f"c16.odd.i.fmt {n} x 2"
+        # framing errors of the wrappers' serde
+        for f in bad_frames(rng, nb):
+            yield f"c16.w.serde_de {n} {xb(f)}"
+            yield f"c16.ck.serde_de {n} {xb(bytes([1]) + f)}"
+        le = pat.to_bytes(nb, 'little')
+        yield f"c16.ck.serde_de {n} x"                                   # no tag byte
+        yield f"c16.ck.serde_de {n} x00"                                 # tag 0: absent
+        yield f"c16.ck.serde_de {n} {xb(bytes([0]) + frame(nb, le))}"    # tag 0, the rest is not read
+        yield f"c16.ck.serde_de {n} x01"                                 # tag 1, nothing after
+        for t in (2, 0x7f, 0x80, 0xff, rng.randrange(2, 256)):
+            yield f"c16.ck.serde_de {n} {xb(bytes([t]) + frame(nb, le))}"    # invalid Option tag
+
+    # ---- BoxedUint: mutable views, wrapper formatting
+    for n in [1, 2, 3, 4, 5, 9]:
+        m = 1 << (64 * n)
+        pat = int.from_bytes(bytes((i + 1) & 0xff for i in range(8 * n)), 'big')
+        for i in range(n):
+            for (v, w) in ((pat, WMAX), (m - 1, 0), (value(rng, n), limb_choice(rng))):
+                yield f"c16.b.words_mut {n} {hx(v)} {i} {hx(w)}"
+        for k in WRAP_KINDS:
+            v = value(rng, n)
+            yield f"c16.nz.b.fmt {n} {k} {hx(v)}"
+            yield f"c16.odd.b.fmt {n} {k} {hx(v | 1)}"
+        yield f"c16.nz.b.fmt {n} x 0"
+        yield f"c16.odd.b.fmt {n} #b {hx(m - 2)}"
+
+    # ---- ConstMontyForm serde: the raw Montgomery representation around the modulus, limb by limb
+    for n, mod in CM.items():
+        nb = 8 * n
+        m = 1 << (64 * n)
+        edge = [0, 1, mod - 1, mod, mod + 1, m - 1, mod >> 1, mod ^ 1]
+        for k in range(n):
+            edge += [(mod - (1 << (64 * k))) % m, (mod + (1 << (64 * k))) % m, mod & ((1 << (64 * (k + 1))) - 1), (mod >> (64 * k)) << (64 * k)]
+        vals = list(dict.fromkeys(edge)) + [rng.randrange(mod) for _ in range(reps)] + [value(rng, n) for _ in range(reps)]
+        for v in vals:
+            yield f"c16.cm.serde_ser {n} {hx(mod)} {hx(v)}"
+            yield f"c16.cm.serde_de {n} {hx(mod)} {xb(frame(nb, v.to_bytes(nb, 'little')))}"
+            yield f"c16.cm.serde_de {n} {hx(mod)} {xb(frame(nb, v.to_bytes(nb, 'big')))}"
+            yield f"c16.cm.roundtrip {n} {hx(mod)} {hx(v)}"
+        for f in bad_frames(rng, nb):
+            yield f"c16.cm.serde_de {n} {hx(mod)} {xb(f)}"
+
+    # ---- Display of the error enums
+    for k in ('Empty', 'InvalidDigit', 'InputSize', 'Precision'):
+        yield f"c16.err.decode {k}"
+    for bp, b in ((8, b'\x01\x00'), (7, b'\xff'), (8, b'\xff'), (0, b''), (0, b'\x00'), (64, bytes(9)), (63, b'\x80' + bytes(7)),
+                  (63, b'\x7f' + bytes(7)), (1, b'\x02'), (1, b'\x01'), (520, b'\x01' + bytes(65))):
+        yield f"c16.err.boxed_decode {bp} {xb(b)}"
+    for t in ('', 'exhausted', 'rng failure: é', '{}', 'x' * 40):
+        yield f"c16.err.randbits rand_core {xt(t)}"
+    for (x, y) in ((0, 0), (5, 64), (64, 5), (4294967295, 4294967295), (256, 255), (rng.randrange(1 << 32), rng.randrange(1 << 32))):
+        yield f"c16.err.randbits mismatch {x} {y}"
+        yield f"c16.err.randbits too_large {x} {y}"
 
 
 def canon(line, out):
